@@ -120,8 +120,16 @@ def m_tag_i(ip, callee, args):
 def m_expect_panic(ip, callee, args): ip.expect.append((val_of_strlike(args[0]), val_of_strlike(args[0]))); return UNIT
 def m_spawn(ip, c, a): return Agg('Handle', None, [Cell(ip.sched.spawn(a[0]))])
 def m_join(ip, c, a): return ip.sched.join(a[0].fields[0].v)
-def m_yield(ip, c, a): ip.sched.switch(); return UNIT
+def m_yield(ip, c, a):
+    if not ip.sched.coop: ip.sched.switch()
+    return UNIT
 def m_current_tid(ip, c, a): return ip.sched.me()
+def m_set_coop(ip, c, a): ip.sched.coop = bool(a[0]); return UNIT
+def m_is_coop(ip, c, a): return ip.sched.coop
+def m_spawn_suspended(ip, c, a): return Agg('Handle', None, [Cell(ip.sched.spawn(a[0]))])
+def m_resume(ip, c, a): return ip.sched.resume(unref(a[0]).fields[0].v)
+def m_suspend(ip, c, a): ip.sched.suspend(); return UNIT
+def m_take(ip, c, a): return ip.sched.threads[a[0].fields[0].v]['result']
 def m_block_on_lock(ip, c, a):
     ip.sched.block_switch(); return UNIT
 
@@ -406,7 +414,7 @@ def install(ip):
         M['vsym::any_' + ty] = m_any_int(ty)
     M['vsym::any_bool'] = m_any_bool; M['vsym::any_str'] = m_any_str; M['vsym::any_token'] = m_any_token; M['vsym::any_ascii'] = m_any_ascii; M['vsym::choice'] = m_choice; M['vsym::param'] = m_param
     M['vsym::assume'] = m_assume; M['vsym::check'] = m_check; M['vsym::cover'] = m_cover; M['vsym::tag'] = m_tag; M['vsym::tag_i'] = m_tag_i
-    M['vsym::expect_panic'] = m_expect_panic; M['vsym::spawn'] = m_spawn; M['vsym::join'] = m_join; M['vsym::yield_now'] = m_yield; M['vsym::current_tid'] = m_current_tid; M['vsym::block_on_lock'] = m_block_on_lock
+    M['vsym::expect_panic'] = m_expect_panic; M['vsym::spawn'] = m_spawn; M['vsym::join'] = m_join; M['vsym::yield_now'] = m_yield; M['vsym::current_tid'] = m_current_tid; M['vsym::set_cooperative'] = m_set_coop; M['vsym::is_cooperative'] = m_is_coop; M['vsym::spawn_suspended'] = m_spawn_suspended; M['vsym::resume'] = m_resume; M['vsym::suspend'] = m_suspend; M['vsym::take'] = m_take; M['vsym::block_on_lock'] = m_block_on_lock
     for k in [k for k in M if k.startswith('vsym::')]: M[k[6:]] = M[k]
     M['<String as From<&str>>::from'] = m_string_from
     M['<String as Deref>::deref'] = m_deref_string
